@@ -174,6 +174,8 @@ def gen_limits(rng):
         b = float("%.3g" % (a * rng.uniform(1.5, 50)))
         if rng.random() < 0.2:
             lim[k] = [rng.randint(0, 2), rng.randint(3, 50)]
+        elif rng.random() < 0.12:
+            lim[k] = [-a, -b]            # a window on a negative rail, written as it is meant: [smaller magnitude, larger magnitude]
         elif k == "tp":
             lim[k] = [gen.ud(rng, -40, 20), gen.ud(rng, 30, 150)]
         else:
